@@ -74,11 +74,15 @@ def prefix(tokeniser: 'Tokeniser') -> IPRange:
     ip = tokeniser()
     try:
         ip, mask_str = ip.split('/')
-        mask = int(mask_str)
     except ValueError:
+        # no prefix length: a host route
         mask = 32
         if ':' in ip:
             mask = 128
+    else:
+        if not mask_str.isdigit():
+            raise ValueError(f"'{mask_str}' is not a valid prefix length")
+        mask = int(mask_str)
 
     tokeniser.afi = IP.toafi(ip)
     iprange = IPRange(IP.pton(ip), mask)
